@@ -152,6 +152,105 @@ def big_load(task):
     return out
 
 
+def stall_load(task):
+    """a request that hangs for `hold` seconds inside one load (the variable's lock is held all that time) on a file system that hands
+    out ONE file object per path, while a second load of the same variable -- through the same tree or a pickled copy -- starts:
+    however long it has to wait, both loads return what they return alone (a lock wait that gives up after a while does not)"""
+    import threading
+    import time
+
+    import ceos_alos2
+
+    from harness import oracle, product, tracefs
+
+    b = product.build_product(level=task["level"], images=(("HH", None, 8, 3), ("HV", None, 8, 3)), seed=task["seed"])
+    url = tracefs.put_product(f"c19stall_{os.getpid()}_{task['seed']}", b.files)
+    tracefs.SHARED.add(tracefs.norm(url))
+    out = {"task": task, "bad": []}
+    try:
+        tree = ceos_alos2.open_alos2(url, backend_options=dict(use_cache=False, records_per_chunk=2))
+        im = b.images[0]
+        da = tree[f"imagery/{im['group']}/data"]
+        other = pickle.loads(pickle.dumps(tree))[f"imagery/{im['group']}/data"] if task["via"] == "pickled" else da
+        res = {}
+
+        def load(d, rows, key):
+            try:
+                res[key] = oracle.pixels_match(d.isel(rows=rows).values, im, rows=rows)
+            except BaseException as e:  # noqa: B902
+                res[key] = f"raised {type(e).__name__}: {str(e)[:120]}"
+
+        path = f"{tracefs.norm(url)}/{im['name']}"
+        tracefs.STALL[path] = [task["hold"], 1]
+        t1 = threading.Thread(target=load, args=(da, [0, 1, 2, 3], "stalled load"))
+        t2 = threading.Thread(target=load, args=(other, [4, 5, 6, 7], "waiting load"))
+        t1.start()
+        time.sleep(0.5)
+        t2.start()
+        t1.join(task["hold"] + 60)
+        t2.join(60)
+        for k in ("stalled load", "waiting load"):
+            if k not in res:
+                out["bad"].append((k, "did not complete (deadlock)"))
+            elif res[k]:
+                out["bad"].append((k, res[k]))
+    finally:
+        tracefs.STALL.clear()
+        tracefs.SHARED.discard(tracefs.norm(url))
+        tracefs.remove(url)
+    return out
+
+
+def crowd_load(task):
+    """`k` free-running threads (no forced schedule) loading at the same time: one thread per image of a quad-polarisation product,
+    then several per image; every load must complete and equal the single-threaded one -- for more loads in flight than any fixed
+    budget of handles / connections / slots a loader may keep"""
+    import threading
+
+    import ceos_alos2
+
+    from harness import imgrun, oracle, product
+
+    b = product.build_product(level=task["level"], images=tuple((pol, None, 6, 3) for pol in ("HH", "HV", "VH", "VV")), seed=task["seed"])
+    url = imgrun.put_on_fs(b, task["fs"], f"c19crowd_{task['seed']}")
+    out = {"task": task, "bad": [], "loads": 0}
+    try:
+        tree = ceos_alos2.open_alos2(url, backend_options=dict(use_cache=False, records_per_chunk=2))
+        das = [tree[f"imagery/{im['group']}/data"] for im in b.images]
+        for k in task["threads"]:
+            res = {}
+
+            def load(i, key):
+                try:
+                    for rep in range(task["reps"]):
+                        rows = [(i + rep) % 6, (i + rep + 3) % 6]
+                        msg = oracle.pixels_match(das[i % 4].isel(rows=rows).values, b.images[i % 4], rows=rows)
+                        if msg:
+                            res[key] = msg
+                            return
+                    res[key] = None
+                except BaseException as e:  # noqa: B902
+                    res[key] = f"raised {type(e).__name__}: {str(e)[:120]}"
+
+            ts = [threading.Thread(target=load, args=(i, i), daemon=True) for i in range(k)]
+            for t in ts:
+                t.start()
+            for t in ts:
+                t.join(45)
+            out["loads"] += k * task["reps"]
+            stuck = [i for i in range(k) if i not in res]
+            if stuck:
+                out["bad"].append((f"{k}-threads", f"{len(stuck)} of {k} concurrent loads (one thread each, images HH/HV/VH/VV) did not complete within 45 s (deadlock)"))
+                break
+            for i, msg in res.items():
+                if msg:
+                    out["bad"].append((f"{k}-threads", f"thread {i} (image {b.images[i % 4]['group']}): {msg}"))
+    finally:
+        if not any("deadlock" in m for _, m in out["bad"]):
+            imgrun.drop_from_fs(url, task["fs"])
+    return out
+
+
 def scripts_from_tlc(cfg, n, depth, seed):
     from harness import behaviours
 
@@ -171,7 +270,7 @@ def body(chk):
     from harness import tlc
     from harness import layout as L
 
-    for cfg in ("MC_Loads_same", "MC_Loads_diff", "MC_Loads_nolock", "MC_Loads_sharedlocked", "MC_Loads_three"):
+    for cfg in ("MC_Loads_same", "MC_Loads_diff", "MC_Loads_nolock", "MC_Loads_sharedlocked", "MC_Loads_three", "MC_Loads_four"):
         r = tlc.run_ok("MC_Loads", cfg, workers=8, coverage=(cfg == "MC_Loads_diff"))
         chk.tlc_stats(r)
         for v in r.violated:
@@ -208,7 +307,29 @@ def body(chk):
         chk.count(3, f"big-load:{res['task']['seed']}")
         for who, msg in res["bad"]:
             chk.violation(f"big-load:{who}", f"12 MB load over 6 groups on a slow non-local filesystem ({who}): {msg}", {"task": res["task"]})
+    L.instances([dict(file="image", kind="processed", n=6, ndata=6, bps=2), dict(file="image", kind="signal", n=6, ndata=24, bps=8)])
+    holds = [12] if nq else [12, 35, 65]
+    stalls = [dict(level=("1.5", "1.1")[i % 2], seed=chk.seed + 300 + i, hold=h, via=via) for i, (h, via) in enumerate((h, via) for h in holds for via in ("same", "pickled"))]
+    crowds = [dict(level=("1.5", "1.1")[i % 2], seed=chk.seed + 320 + i, fs=fs, threads=[4, 5, 8, 16] if nq else [4, 5, 6, 8, 12, 16, 32, 64], reps=5 if nq else 40)
+              for i, fs in enumerate(("local", "vtrace", "memory", "file"))]
+    import multiprocessing.pool
+
+    side = multiprocessing.pool.ThreadPool(2)
+    stall_async = side.apply_async(lambda: checklib.pmap(stall_load, stalls, chk.scratch, procs=len(stalls)))
+    crowd_async = side.apply_async(lambda: checklib.pmap(crowd_load, crowds, chk.scratch, procs=len(crowds)))
     results = checklib.pmap(run_schedules, tasks, chk.scratch)
+    for res in stall_async.get():
+        chk.count(2, f"stall:{res['task']['hold']}:{res['task']['via']}")
+        for who, msg in res["bad"]:
+            chk.violation(f"stalled-request:{res['task']['via']}:{who}", f"a request of one load hangs for {res['task']['hold']} s on a one-object-per-path file system while a second load of the "
+                          f"same variable ({res['task']['via']}) waits: {who}: {msg}", {"task": res["task"]})
+    for res in crowd_async.get():
+        chk.count(res["loads"], f"crowd:{res['task']['fs']}")
+        for who, msg in res["bad"][:2]:
+            chk.violation(f"crowd:{who}", f"[{res['task']['fs']}] {msg}", {"task": res["task"]})
+    chk.rule_extra.append(f"stalled request: one read hangs {holds} s with the variable's lock held while a second load of the same variable (same tree / pickled copy) waits, "
+                          "shared file object per path; crowd: 4..16 (thorough: ..64) free-running threads loading the four images of a quad-pol product at once on 4 file systems, "
+                          "45 s watchdog per round")
     path = os.path.join(chk.scratch, "c19.ndjson")
     info = {}
     n = 0
